@@ -18,8 +18,10 @@ import (
 
 const maxCycles = 12
 
-var multFrac = map[string][2]int64{"": {1, 1}, "1": {1, 1}, "1.0": {1, 1}, "1.5": {3, 2}, "2": {2, 1}, "3": {3, 1},
+var multFrac = map[string][2]int64{"": {1, 1}, "1": {1, 1}, "1.0": {1, 1}, "1.2": {6, 5}, "1.5": {3, 2}, "2": {2, 1}, "3": {3, 1}, "5": {5, 1},
 	"0.5": {1, 2}, "0.4": {2, 5}, "0.25": {1, 4}, "0.9": {9, 10}}
+
+func multKnown(m string) bool { _, ok := multFrac[m]; return ok }
 
 type result struct {
 	term, label string
@@ -172,7 +174,7 @@ func runCase(stream string, w *World) result {
 	type seen struct{ at, evict int }
 	first := map[string]seen{w.Canon(): {0, 0}}
 	totalEv := 0
-	var cycTerms, cycDesc []string
+	var cycTerms, cycDesc, satTerms []string
 	var prevPipes []string
 	notHonoured := false
 	rebound := false
@@ -242,6 +244,27 @@ func runCase(stream string, w *World) result {
 		rec.Calls = b.Rec.calls
 		rec.Complaints = len(b.Rep.msgs)
 		rec.Sizes, rec.Partial = b.Sizes, b.PartialPlacements
+		rec.Sats = satObservations(w, b, rec.Calls)
+		for _, o := range rec.Sats {
+			verdict := "admits"
+			if !o.RefAdmits {
+				verdict = "refuses"
+			}
+			switch {
+			case !o.Exact:
+				res.stats["saturation:not-compared(not dyadic or decided by float rounding)"]++
+			case o.GateDisagrees():
+				res.stats["saturation:REAL-GATE-ADMITS-WHAT-THE-RULE-REFUSES"]++
+			default:
+				res.stats[fmt.Sprintf("saturation:%s:m=%s:rule-%s:real-gate-%v", strings.SplitN(stream, "(", 2)[0], multName(o.Mult), verdict, o.RealAdmits)]++
+			}
+			if o.Exact {
+				k, _ := scaleOf([]float64{o.X, o.Fr, o.Y, o.Fe})
+				sc := math.Ldexp(1, k)
+				satTerms = append(satTerms, fmt.Sprintf("(mkSat %s %s %s %s %s %s %s)", u.Nat(c), u.Z(int64(o.X*sc)), u.Z(int64(o.Fr*sc)),
+					u.Z(int64(o.Y*sc)), u.Z(int64(o.Fe*sc)), u.Bool(o.RefAdmits), u.Bool(o.RealAdmits)))
+			}
+		}
 		if attrs != nil {
 			if k := gateOnActualVictims(attrs, jobQueue, podJob, multFloat(w.Cfg.Multiplier), rec.Calls); k > 0 {
 				res.stats["class:real-gate-refuses-actual-victims"] += k
@@ -387,8 +410,8 @@ func runCase(stream string, w *World) result {
 			outside, stream = stream[i:], stream[:i]
 		}
 	}
-	res.term = fmt.Sprintf("(mkCase %s %s %s %s %s %s %s)", u.Nat(streamCode), params, u.Pair(u.Z(mf[0]), u.Z(mf[1])),
-		u.Bool(exact), state0, u.List(cycTerms), u.Nat(npods))
+	res.term = fmt.Sprintf("(mkCase %s %s %s %s %s %s %s %s)", u.Nat(streamCode), params, u.Pair(u.Z(mf[0]), u.Z(mf[1])),
+		u.Bool(exact), state0, u.List(cycTerms), u.Nat(npods), u.List(satTerms))
 	lasso := ""
 	if tr.LassoFrom >= 0 {
 		lasso = fmt.Sprintf(" LASSO(state after c%d = state before c%d)", tr.LassoTo, tr.LassoFrom)
@@ -416,6 +439,7 @@ func runCase(stream string, w *World) result {
 	res.stats[fmt.Sprintf("%s:cycles=%d", stream, len(tr.Cycles))]++
 	res.stats[fmt.Sprintf("%s:evicting-cycles=%d", stream, tr.EvictingCycles)]++
 	res.stats[stream+":runs"]++
+	res.stats[fmt.Sprintf("multiplier:%s:m=%s", stream, multName(w.Cfg.Multiplier))]++
 	if !exact && stream == "class" {
 		res.stats["class:inexact"]++
 	} else if stream == "class" {
@@ -429,11 +453,12 @@ func runCase(stream string, w *World) result {
 }
 
 // lassoTags describes HOW a lasso came about, from what is observable without hooks:
-//   SIM-REPLACED-OWN-DEPT  an eviction inside the loop was committed from a solver statement that had evicted and
-//                          re-placed ("unevicted") a pod of the reclaimer's OWN department (simTrack)
-//   SIM-REPLACED           ... re-placed some other pod
-//   UNSTABLE(k/10)         the same world, run 10 times from its initial state, does not always take the same decisions
-//                          (they depend on Go map iteration order inside the scheduler); k of the 10 runs end in a lasso
+//
+//	SIM-REPLACED-OWN-DEPT  an eviction inside the loop was committed from a solver statement that had evicted and
+//	                       re-placed ("unevicted") a pod of the reclaimer's OWN department (simTrack)
+//	SIM-REPLACED           ... re-placed some other pod
+//	UNSTABLE(k/10)         the same world, run 10 times from its initial state, does not always take the same decisions
+//	                       (they depend on Go map iteration order inside the scheduler); k of the 10 runs end in a lasso
 func lassoTags(w0 *World, tr *Trace) string {
 	jobQueue, podJob, queueDept := map[string]string{}, map[string]string{}, map[string]string{}
 	for _, q := range w0.Queues {
@@ -461,7 +486,18 @@ func lassoTags(w0 *World, tr *Trace) string {
 		}
 	}
 	tags := ""
-	if own {
+	if gd := gateDisagreement(tr); gd != "" {
+		// an eviction of the loop that the real gate admitted although the documented saturation rule refuses it on the
+		// same inputs: THAT is what keeps the loop going, whatever the simulation re-placed on the way.  The mechanism
+		// tags SIM-REPLACED* (known finding C15-sim-replaced-victims-reorder: legitimate evictions undone by a different
+		// job order) are reserved for loops whose evictions the documented gate admits.
+		tags += " GATE-ADMITS-WHAT-THE-SATURATION-RULE-REFUSES(" + gd + ")"
+		if own {
+			tags += " (the committed scenario also re-placed pods of the reclaimer's own department)"
+		} else if other {
+			tags += " (the committed scenario also re-placed other pods)"
+		}
+	} else if own {
 		tags += " SIM-REPLACED-OWN-DEPT"
 	} else if other {
 		tags += " SIM-REPLACED"
@@ -531,6 +567,10 @@ func RunAll(dir string, seed uint64, n int, tier string, hierN, sizedN int) erro
 	for _, w := range hierFamily() {
 		jobs = append(jobs, job{"hier", w})
 	}
+	// the enumerated neighbourhood of the seeded/C15-4 world: valid saturation multipliers 1 .. 5 x node layouts x ...
+	for _, w := range satFamily() {
+		jobs = append(jobs, job{"hier", w})
+	}
 	// the sized worlds: the world of seeded/C15-3/README.md, its one-device control, variations, and the enumerated
 	// neighbourhood (deterministic); stream "sized" - no listed finding covers a lasso here
 	for _, name := range sizedCorpus {
@@ -592,7 +632,7 @@ func RunAll(dir string, seed uint64, n int, tier string, hierN, sizedN int) erro
 			fmt.Fprintf(os.Stderr, "LASSO on the real scheduler:\n%s\n", r.dump)
 		}
 	}
-	out.Stats["rule"] = "EXPLORATION: bounded closed-system runs (<= 12 cycles; an evicted pod is pending again, a pipelined (nominated) pod is simply pending again in the next cycle, a bind completes; lasso = a canonical world state seen before with an eviction in between) of the real actions (allocate, consolidation, reclaim, preempt[, stalegangeviction]) with AllowConsolidatingReclaim, MaxNumberConsolidationPreemptees and the proportion plugin's relcaimerSaturationMultiplier varied. World shapes: (1) fixed corpus, run first: 13 flat / two-level worlds (gate ping-pong, equal-priority preemption, the minimal worlds of the known findings) + 6 hierarchical worlds (the world of seeded/C15-2/README.md: two departments, the reclaimer's department with two leaf queues, a 3-GPU pending job of the sibling queue first in the department next to a 1-GPU job entitled to reclaim; variations: no big job, big job in the victim's department, three departments, big job schedulable, department limit instead of quota) + 360 enumerated hierarchical worlds (hierFamily: position / size of the big job x own running job x how it gets in front x overshoot of the victim's department x {plain, department limit, three departments, 2-GPU reclaimer, no consolidating reclaim}); (2) n generated worlds: stream 'class' (1/2: <= 4 nodes, 2-4 leaf queues under 1-2 departments, <= 8 single-pod 1-GPU preemptible jobs, no limits: the class of theorem C15_rank_decreases, refinement-checked against Model/ClosedSystem.v incl. order consistency), stream 'general' (1/4: gangs, fractional pods, CPU as second resource, limits, non-preemptible jobs; 1/4 class-shaped with queue priorities / over-subscribed quotas; monitor only); (3) stream 'hier' random worlds (GenHier: 1-2 nodes of 4-8 GPUs, 2-3 departments with quota and sometimes limit and priority, 1-3 leaf queues each with quotas that may over-subscribe the department, limits, over-quota weights 0-3, queue priorities, 4-12 single-pod jobs of 1-4 GPUs with varied priorities / creation times, half of them built around a big pending job of a sibling leaf queue): thorough tier n/5, quick tier none (flag -hier K). (4) SIZED worlds (sized.go): jobs whose size is not a number of whole GPUs - gpu-memory requests (devices of memory 100 as test_utils' fake nodes report it, and 16 / 40 / 80 GiB devices), gpu-fraction requests, both with gpu-fraction-num-devices 1-3 (pods built through core.PodSpec -> the real pod_info.NewTaskInfo) - against ELASTIC running jobs (minAvailable < pods) in queues with deserved quota / over-quota weight 0 / fair share at the boundary: stream 'sized' = 9 fixed worlds (sized-elastic-gpumem-2dev = the world of seeded/C15-3/README.md exactly, sized-elastic-gpumem-1dev = its one-device control, 3 devices, the same sizes as gpu-fraction requests, 16 GiB devices, a gang as victim, a reclaimer that really fits its fair share, sized-kinds = one pending job of every kind) + 144 enumerated neighbours (sizedFamily: kind x devices 1-3 x sizes x quotas x which job is older; -probe sizedfam:<k>), run in every tier, no lasso and no size disagreement on the unchanged tree, identical over 6 repeated runs; no listed finding covers stream 'sized'. Random sized worlds (GenSized: 1-2 nodes of 2-4 GPUs, 2-3 queues, 3-7 jobs of every kind, 1-3 pods, gangs and elastic jobs, most of them running with their GPU groups; -probe sized:<seed>:<k>) extend the general stream and are labelled stream=general(sized): quick tier n/10, thorough tier n/5 (flag -sized K); on the unchanged tree about 0.6% end in a lasso (survey over seeds 1-3: 50 of 8000, the count varies by one or two between runs), every one of the form bind(X) ... evict(X) inside one cycle except one of the period-2 form (evicted and moved, bound back next cycle) - the two forms of known finding C15-rebound-pod-evicted-again -, no size disagreement. SIZE OBSERVATIONS (every stream, every cycle, every action): right before an action the harness asks the real podgroup_info.GetTasksToAllocate / GetTasksToAllocateInitResource (the value proportion.buildReclaimerInfo hands the reclaim gate) for every job with pending pods; after the action, for every job of which exactly those pods were placed, the sum of utils.QuantifyResourceRequirements(AcceptedResource) is what the queue was charged; monitor: charged <= counted + 0.01 GPU per shared device (the charged portion of a device is rounded up to 1/100), and counted <= charged when the pods sit on devices of the memory the session divides by (label tags SIZE-UNDERCOUNTED / SIZE-OVERCOUNTED; counts size:<kind>:<action>[:evicting]:<outcome>). Lassos on the unchanged tree: corpus and enumerated hierarchical worlds 0 of 366; random hierarchical worlds 27 of 6000 (18 with tag SIM-REPLACED*: the committed scenario had evicted and re-placed other pods; 9 + 1 of those UNSTABLE: the decisions of the same world differ from run to run, they depend on Go map iteration order) - proposed findings, see checks.d; general stream about 8 per 1500 (known finding). Lasso tags are decided on the mechanism, the same in every stream and in the search rounds: SIM-REPLACED* (framework.EventHandler on the session's statements), UNSTABLE(push-order ...) (the real utils.JobsOrderByQueues filled through PushJob with the same jobs in 40+ orders on the states of the loop and on the states its evictions were simulated on gives different pop sequences), FAIR-SHARE-NOT-REPRODUCIBLE(...) (32 calls of the real SetResourcesShare on the same attributes disagree), plus the sample tag UNSTABLE(k/10) from re-running the world. Class-stream worlds whose fair shares are not reproducible are NOT compared with the model (label stream=class(inexact, not compared), counts class:inexact-not-compared / class:compared); the monitor stays on. Non-trivial = the run contains at least one evicting cycle; distinct by world and decisions."
+	out.Stats["rule"] = "EXPLORATION: bounded closed-system runs (<= 12 cycles; an evicted pod is pending again, a pipelined (nominated) pod is simply pending again in the next cycle, a bind completes; lasso = a canonical world state seen before with an eviction in between) of the real actions (allocate, consolidation, reclaim, preempt[, stalegangeviction]) with AllowConsolidatingReclaim, MaxNumberConsolidationPreemptees and the proportion plugin's relcaimerSaturationMultiplier varied. World shapes: (1) fixed corpus, run first: 13 flat / two-level worlds (gate ping-pong, equal-priority preemption, the minimal worlds of the known findings) + 6 hierarchical worlds (the world of seeded/C15-2/README.md: two departments, the reclaimer's department with two leaf queues, a 3-GPU pending job of the sibling queue first in the department next to a 1-GPU job entitled to reclaim; variations: no big job, big job in the victim's department, three departments, big job schedulable, department limit instead of quota) + 360 enumerated hierarchical worlds (hierFamily: position / size of the big job x own running job x how it gets in front x overshoot of the victim's department x {plain, department limit, three departments, 2-GPU reclaimer, no consolidating reclaim}) + the SATURATION worlds: hier-saturation-m1 / -m1.5 / -m2 / -m3 = the world of seeded/C15-4/README.md (7 GPUs on nodes of 3 and 4; dept-a quota 3 with projects a-new, a-old of quota 2 each, dept-b quota 4 with b-big quota 3, b-small quota 2: project quotas over-subscribe the departments; a-new-train, 2 GPUs, pending; only the saturation rule refuses its reclaim of b-small-train: dept-a 4/3 x m >= dept-b 3/4 for every valid m) under four multipliers + 192 enumerated neighbours (satFamily: multiplier 1, 1.2, 1.5, 2, 3, 5 x node layout 3+4 / 7 / 4+3 / 2+5 x a-old as 1+1 or 2 GPUs x consolidating reclaim on / off x reclaimer of 2 or 1 GPUs; -probe satfam:<k>), no lasso on the unchanged tree; (2) n generated worlds: stream 'class' (1/2: <= 4 nodes, 2-4 leaf queues under 1-2 departments, <= 8 single-pod 1-GPU preemptible jobs, no limits: the class of theorem C15_rank_decreases, refinement-checked against Model/ClosedSystem.v incl. order consistency), stream 'general' (1/4: gangs, fractional pods, CPU as second resource, limits, non-preemptible jobs; 1/4 class-shaped with queue priorities / over-subscribed quotas; monitor only); (3) stream 'hier' random worlds (2 of 5 from genHierSat: 2-3 nodes of DIFFERENT sizes 2-5, 2-3 departments whose quotas split the cluster, 1-3 project queues per department with quotas between half and all of the department's quota - two of them over-subscribe it -, the first department below its quota with a pending job of 1-3 GPUs and small running jobs of a sibling project spread over the nodes, the others above; multiplier absent / 1 / 1.2 / 1.5 / 2 / 3 / 5 - valid settings only; 3 of 5 from GenHier: 1-2 nodes of 4-8 GPUs, 2-3 departments with quota and sometimes limit and priority, 1-3 leaf queues each with quotas that may over-subscribe the department, limits, over-quota weights 0-3, queue priorities, 4-12 single-pod jobs of 1-4 GPUs with varied priorities / creation times, half of them built around a big pending job of a sibling leaf queue): thorough tier n/5, quick tier none (flag -hier K). (4) SIZED worlds (sized.go): jobs whose size is not a number of whole GPUs - gpu-memory requests (devices of memory 100 as test_utils' fake nodes report it, and 16 / 40 / 80 GiB devices), gpu-fraction requests, both with gpu-fraction-num-devices 1-3 (pods built through core.PodSpec -> the real pod_info.NewTaskInfo) - against ELASTIC running jobs (minAvailable < pods) in queues with deserved quota / over-quota weight 0 / fair share at the boundary: stream 'sized' = 9 fixed worlds (sized-elastic-gpumem-2dev = the world of seeded/C15-3/README.md exactly, sized-elastic-gpumem-1dev = its one-device control, 3 devices, the same sizes as gpu-fraction requests, 16 GiB devices, a gang as victim, a reclaimer that really fits its fair share, sized-kinds = one pending job of every kind) + 144 enumerated neighbours (sizedFamily: kind x devices 1-3 x sizes x quotas x which job is older; -probe sizedfam:<k>), run in every tier, no lasso and no size disagreement on the unchanged tree, identical over 6 repeated runs; no listed finding covers stream 'sized'. Random sized worlds (GenSized: 1-2 nodes of 2-4 GPUs, 2-3 queues, 3-7 jobs of every kind, 1-3 pods, gangs and elastic jobs, most of them running with their GPU groups; -probe sized:<seed>:<k>) extend the general stream and are labelled stream=general(sized): quick tier n/10, thorough tier n/5 (flag -sized K); on the unchanged tree about 0.6% end in a lasso (survey over seeds 1-3: 50 of 8000, the count varies by one or two between runs), every one of the form bind(X) ... evict(X) inside one cycle except one of the period-2 form (evicted and moved, bound back next cycle) - the two forms of known finding C15-rebound-pod-evicted-again -, no size disagreement. SIZE OBSERVATIONS (every stream, every cycle, every action): right before an action the harness asks the real podgroup_info.GetTasksToAllocate / GetTasksToAllocateInitResource (the value proportion.buildReclaimerInfo hands the reclaim gate) for every job with pending pods; after the action, for every job of which exactly those pods were placed, the sum of utils.QuantifyResourceRequirements(AcceptedResource) is what the queue was charged; monitor: charged <= counted + 0.01 GPU per shared device (the charged portion of a device is rounded up to 1/100), and counted <= charged when the pods sit on devices of the memory the session divides by (label tags SIZE-UNDERCOUNTED / SIZE-OVERCOUNTED; counts size:<kind>:<action>[:evicting]:<outcome>). Lassos on the unchanged tree: corpus and enumerated hierarchical worlds 0 of 366; random hierarchical worlds 27 of 6000 (18 with tag SIM-REPLACED*: the committed scenario had evicted and re-placed other pods; 9 + 1 of those UNSTABLE: the decisions of the same world differ from run to run, they depend on Go map iteration order) - proposed findings, see checks.d; general stream about 8 per 1500 (known finding). SATURATION OBSERVATIONS (satgate.go; every world of single-pod whole-GPU jobs: class, class-shaped and hierarchical streams; counts saturation:<stream>:m=<multiplier>:rule-<verdict>:real-gate-<verdict>, multiplier distribution multiplier:<stream>:m=<multiplier>): for every reclaim eviction the real action committed the harness rebuilds what the scenario validator was handed (queue attributes of the committed state with the real SetResourcesShare, reclaimer, victims: with consolidating reclaim the pods that stay evicted, without it every pod the scenario evicted), calls the REAL reclaimable.Reclaimable on it and evaluates the documented saturation rule (refuse iff x/Fr > 1, Fe > 0 and (x/Fr) * m >= y/Fe, m = clamped relcaimerSaturationMultiplier on the RECLAIMER's ratio) for every pair of queues the real code compares; Run/C15.v sats_agree: the model's saturation_ok gives the harness's verdict and admits whatever the real gate admitted. Lasso tags are decided on the mechanism, the same in every stream and in the search rounds: GATE-ADMITS-WHAT-THE-SATURATION-RULE-REFUSES (an eviction of the loop that the real gate admitted although the documented rule refuses it on the same inputs; no listed finding covers it, and it takes the place of SIM-REPLACED*, which is reserved for loops whose evictions the documented gate admits), SIM-REPLACED* (framework.EventHandler on the session's statements), UNSTABLE(push-order ...) (the real utils.JobsOrderByQueues filled through PushJob with the same jobs in 40+ orders on the states of the loop and on the states its evictions were simulated on gives different pop sequences), FAIR-SHARE-NOT-REPRODUCIBLE(...) (32 calls of the real SetResourcesShare on the same attributes disagree), plus the sample tag UNSTABLE(k/10) from re-running the world. Class-stream worlds whose fair shares are not reproducible are NOT compared with the model (label stream=class(inexact, not compared), counts class:inexact-not-compared / class:compared); the monitor stays on. Non-trivial = the run contains at least one evicting cycle; distinct by world and decisions."
 	return out.Flush()
 }
 
